@@ -19,6 +19,9 @@ type Addr string
 func (a Addr) Network() string { return "mem" }
 func (a Addr) String() string  { return string(a) }
 
+// MaxOut caps the captured output of one connection.
+const MaxOut = 8 << 20
+
 // ErrInjected is the error returned by injected transport faults.
 var ErrInjected = errors.New("memnet: injected transport fault")
 
@@ -61,6 +64,9 @@ type Conn struct {
 	WritesAfterStop int // writes attempted after Close
 	F               Faults
 	failed          bool // a fault has fired; transport stays broken
+
+		// OutOverflow is set when more than MaxOut bytes were written (the rest is dropped).
+	OutOverflow bool
 
 	// OnRead, when set, is called (without the lock) at the start of every Read.
 	OnRead func()
@@ -160,6 +166,11 @@ func (c *Conn) Write(p []byte) (int, error) {
 		c.failed = true
 		c.cond.Broadcast()
 		return n, ErrInjected
+	}
+	if len(c.out)+len(p) > MaxOut {
+		// the harness never needs more; remember that the server flooded the client
+		c.OutOverflow = true
+		return len(p), nil
 	}
 	c.out = append(c.out, p...)
 	c.writeLen = append(c.writeLen, len(p))
